@@ -24,11 +24,11 @@ ENGINES = [
      "kind_free_text": "pure TLA+ definition of the Roughtime TLV layout (Accepts / Pairs / Encode / size limits in limbs) + "
      "transcription of MessageView's accessors; TLC design MC over all header shapes and small pair lists; the same domains "
      "executed on the real MessageView / MessageWrapper; TLC trace validation"},
-    {"name": "readn", "path": "specs/ReadN.tla specs/ReadNMC.tla specs/ReadNTrace.tla lib/engines/readn.py harness/src/readn.rs",
+    {"name": "readn", "path": "specs/ReadN.tla specs/ReadNMC.tla specs/ReadNInd.tla specs/ReadNTrace.tla lib/engines/readn.py harness/src/readn.rs",
      "serves_properties": ["C17"],
      "kind_free_text": "TLA+ declared result of read_n vs transcribed retry loop (TLC, all scripts within bounds); every "
      "checked configuration executed on the real code through five entry points; TLC trace validation"},
-    {"name": "pipe", "path": "specs/IovecPipe.tla specs/OwningIovecImpl.tla specs/OwningIovecMC.tla specs/PipeTrace.tla specs/FootprintTrace.tla lib/engines/pipe.py "
+    {"name": "pipe", "path": "specs/IovecPipe.tla specs/OwningIovecImpl.tla specs/OwningIovecMC.tla specs/ArenaSizes.tla specs/PipeTrace.tla specs/FootprintTrace.tla lib/engines/pipe.py "
      "harness/src/pipe.rs harness/src/footprint.rs",
      "serves_properties": ["C03", "C04", "C05", "C20", "C10"],
      "kind_free_text": "TLA+ A-spec of the OwningIovec as a FIFO byte pipe with deferred holes over run-list byte strings, "
@@ -48,7 +48,7 @@ ENGINES = [
      "kind_free_text": "pure TLA+ definition of the HCOBS wire format (RefEncode/RefDecode) + transcription of EncoderState/"
      "DecoderState; TLC design MC over all inputs and segmentations (tiny limits), edge-cover replay through hook H3, TLC "
      "evaluation of the format on bytes recorded from the real Encoder/Decoder at production limits"},
-    {"name": "deque", "path": "specs/Deque.tla specs/DequeMC.tla specs/DequeTrace.tla specs/Sorted.tla "
+    {"name": "deque", "path": "specs/Deque.tla specs/DequeMC.tla specs/DequeInd.tla specs/DequeTrace.tla specs/Sorted.tla "
      "specs/SortedMC.tla specs/SortedTrace.tla lib/engines/deque.py harness/src/deque.rs",
      "serves_properties": ["C15", "C16"],
      "kind_free_text": "TLA+ A-spec (reference deque / ordered map) + I-spec (transcribed SlidingDeque, "
@@ -66,7 +66,8 @@ STREAM_NOTE = ("Bounded: exhaustive for streams <= 5 (chunker) / <= 4 (reader) o
                "in the quick tier (6 / 5 in thorough), sampled beyond (record-rich logs, truncation of a 3-record log at every "
                "byte, corruption, garbage, sentinel runs, FE/FD fragments; block sizes up to the 512 KiB default; short-read / "
                "EINTR schedules; prepared arena fill states for the chunker). Hard I/O errors inside the chunker are outside "
-               "the property (covered for read_n by C17). Judges other than chunk_judge are not driven.")
+               "the property (covered for read_n by C17). Besides chunk_judge, a family of judges that skip / stop at chosen record offsets "
+               "is in the A-spec, the I-spec, the MC and the real runs; judges that consume part of the record are not driven.")
 
 PIPE_NOTE = ("Design level: OwningIovecImpl.tla transcribes OwningIovec / GlobalDeque / ByteArena (slices, anchors, allocation cache, "
              "chunk-size sequence, backref deque, merge rule, consume/consume_by_bytes, push_anchor, clone/take) with tiny constants "
@@ -77,7 +78,9 @@ PIPE_NOTE = ("Design level: OwningIovecImpl.tla transcribes OwningIovec / Global
              "any order, clone/take, arena flush/swap/reserve, anchored pushes, held AnchoredSlices with split/skip/clone) and scripted "
              "corner histories; every event is validated by TLC against the A-spec; each history ends with fill-all, consume-all, "
              "drop-all. Trusts hook H2 (registry calls in Chunk::new/Drop; verif_projection is read-only), debug poison 0xFC, TLC, the "
-             "harness recording. read_n's partial release and swap_arena are driven on the real code but not in the I-spec. Address reuse "
+             "harness recording. The I-spec also covers swap_arena, short reads (partial release), ensure / flush; ArenaSizes.tla checks the "
+             "transcribed find_hint_size with the real size sequence. Wrong-size backfills (documented panic, placeholder stays pending), "
+             "clones taken while a placeholder is pending and anchor interleavings K / K' / K are driven too. Address reuse "
              "by the allocator can hide a dangling slice from the registry classification (content comparison still applies). A process "
              "death of the harness (abort on an unsafe-precondition check, segfault) in a run is recorded as a violation of C05.")
 
@@ -100,15 +103,18 @@ CHECKS = {
         "text": "NfsVoucher.tla states the property as action properties (Monotone, OnlyTrustedEvidence, UntrustedIgnored, ReturnsVouched) over "
                 "trusted devices / base / files / clock and transcribes update_base_time (blocking / touch / extra_device), the scan loop and "
                 "add_trusted_path; TLC checks them on 2 devices x 3 files x 3-4 ticks incl. re-pointed paths and lost try_update races (the "
-                "variant that skips the device check is rejected). Real module: 40 (quick) / 400 (thorough) random call sequences + 2 scripted "
-                "ones, each in its own process, on files of the work directory and of tmpfs /dev/shm created milliseconds apart (touches, old "
+                "variant that skips the device check is rejected). Real module: 40 (quick) / 400 (thorough) random call sequences + 4 scripted "
+                "ones (one with 40 concurrent callers forcing refreshes for 4 s / 30 s: per thread the base time never decreases and is never older "
+                "than what its own refresh reported), each in its own process, on files of the work directory and of tmpfs /dev/shm created milliseconds apart (touches, old "
                 "mtimes, symlinks re-pointed across devices, trust established early/late, `now` on both sides of the refresh threshold); after "
                 "every call TLC checks the base time and the returned pair against the change-times and devices the harness itself observed, and "
                 "that every returned pair passes VouchedTime's voucher check.",
         "design_ref": "DESIGN.md section 6, C19",
         "note": "Real file system and real time: trace validation cannot dictate ctimes (no spec->impl replay); the spec only relates values "
                 "the harness observed, so coarse timestamps cannot cause false alarms. Times are logged relative to the start of the run "
-                "(32-bit TLC integers). The refresh decision is policy and left free. If /dev/shm is not a second device the untrusted-device "
+                "(32-bit TLC integers). should_refresh_base_time is policy, outside the property: the trace spec states it (age > leeway and a "
+                "trusted path exists) and reports deviations as DRIFT only. The concurrent history runs on real threads: its monitors cannot fire "
+                "on correct code, but what it detects depends on the schedule. If /dev/shm is not a second device the untrusted-device "
                 "cases degrade and the evidence says so.",
     },
     "C13": {
@@ -120,7 +126,8 @@ CHECKS = {
                 "single orderings breaks NoTorn. The real code is then executed on a simulated RA memory at atomic-step granularity: every "
                 "edge (thread, reads-from) of an MC graph, any TLC counterexample, and thousands of seeded random schedules x reads-from "
                 "choices incl. stale reads; TLC validates each execution for legality and checks the monitors on the real return values "
-                "(the real voucher check panicking on a torn pair is a violation).",
+                "(the real voucher check panicking on a torn pair is a violation). An enumerated grid of writer suspension points x "
+                "solo reader / try_update scripts with extreme reads-from choices adds the quantifier of C18 to the same traces.",
         "design_ref": "DESIGN.md section 6, C13",
         "note": ATOMIC_NOTE,
     },
@@ -160,7 +167,8 @@ CHECKS = {
                 "<= 3 (4) pairs x constructors new / new_from_slice / new_from_sorted x Cow borrowed/owned, nested messages, 21..100-pair "
                 "lists with ties, through OwningIovec, a dyn ZeroCopySink and an HCOBS Encoder->Decoder, is executed; TLC compares emitted "
                 "bytes, rough_tlv_len, the constructor verdict (only new_from_sorted rejects, exactly decreasing tags), the pairs read back "
-                "through iteration / indexing / lookup, and the size-limit verdicts at i32::MAX-3..+3 for 1..4 pairs.",
+                "through iteration / indexing / lookup, and the size-limit verdicts at i32::MAX-3..+3 for 1..4 pairs. Lists over wide tags "
+                "(255, 256, 65535, 65536, 2^24, 2^31-1: numeric vs byte-wise order) go through all three constructors.",
         "design_ref": "DESIGN.md section 6, C11/C12",
         "note": TLV_NOTE,
     },
@@ -185,7 +193,9 @@ CHECKS = {
                 "executed on ByteArena::read_n (fresh, empty-tail, 1-byte-tail, count-1, count tails, maximal chunk) and on Encoder/Decoder "
                 "read_n, encode_read, decode_read; TLC validates the recorded reader calls, results, returned bytes, and that the codec's "
                 "later output is the format's encoding/decoding of exactly the bytes read; plus random longer scripts and counts at the "
-                "4096 / 1 MiB chunk boundaries.",
+                "4096 / 1 MiB / 2 MiB chunk boundaries on fresh, young, nearly full and maximal arenas with readers that deliver, fail at once, "
+                "exhaust the attempts or hit EOF. ReadNInd.tla discharges the byte accounting as an inductive invariant with Apalache "
+                "(unbounded counts).",
         "design_ref": "DESIGN.md section 6, C17",
         "note": "Bounded enumeration as stated; larger counts sampled. Readers that deliver more than requested or return 0 before "
                 "the end are outside std::io::Read's contract. Trusts TLC, the scripted reader of the harness.",
@@ -241,7 +251,8 @@ CHECKS = {
         "text": "No-leak: every run of the pipe, codec and stream engines ends by dropping every object; TLC checks the process-wide live "
                 "chunk/byte counters return to their value at the start of the run. Bounded footprint: 64 MiB (quick) / 512 MiB (thorough) "
                 "per run are streamed through the real Encoder and Encoder->Decoder pipeline (4 payload shapes x copy/borrow/read input x "
-                "3 drain APIs x call-size schedules incl. 1-byte and 300000-byte calls) and a StreamReader skipping a 12 / 96 MiB record; "
+                "3 drain APIs x call-size schedules incl. 1-byte, 300000-byte and 3 MiB calls, input from foreign arenas) and a StreamReader skipping "
+                "a 12 / 96 MiB record or reading 24 MiB of empty / invalid records; an 8-thread run checks the counters under concurrent drops; "
                 "TLC checks live bytes <= 8 MiB per codec object at every sample and that the second half of the run does not exceed the "
                 "first half by more than 1 MiB (a leak grows linearly).",
         "design_ref": "DESIGN.md section 6, C10",
@@ -266,7 +277,8 @@ CHECKS = {
                 "transcribed decoder and chunker) returns exactly Records for every stream/block/judge parameter within bounds; "
                 "the same space plus record-rich logs truncated at every byte, corrupted, with extra delimiters, are read through "
                 "the real StreamReader under short-read/EINTR schedules; TLC compares the returned (bytes, range) list with Records, "
-                "panics and errors are violations, last_sentinel_offset is checked for monotonicity and for pointing at FE FD.",
+                "panics and errors are violations, last_sentinel_offset is checked for monotonicity and for pointing at FE FD. A family of "
+                "judges that skip or stop at chosen record offsets is part of the A-spec, the MC and the real runs.",
         "design_ref": "DESIGN.md section 6, C08/C06",
         "note": STREAM_NOTE,
     },
@@ -313,7 +325,10 @@ CHECKS = {
                 "(content too for small runs), and for each drain (consume / advance_slices / Read with amounts below, at and far above what is "
                 "consumable) the bytes removed and the reported count; TLC checks: observed bytes never change and are a prefix of drained++finish, "
                 "each drain removes exactly what it reports, lag <= 1 MiB + L2 + 2 for encoders and 0 (no pending backpatch) for decoders, finish leaves "
-                "nothing pending.",
+                "nothing pending, and when anything was drained, drained ++ finish is the complete output. Also driven: codecs built on a "
+                "pre-populated OwningIovec (new_from_iovec: earlier contents are kept), Decoder::take_iovec mid-stream, input read ahead of the "
+                "codec, input from a producer arena that is dropped later. For short inputs the transcribed state machines (HcobsCodec.tla) run as a "
+                "shadow on the same pieces; disagreements on appended / consumable counts or on the reject point are reported as DRIFT.",
         "design_ref": "DESIGN.md section 6, C09",
         "note": CODEC_NOTE + " The lag bound over unbounded stream lengths is checked on streams up to ~130 KB here and on long streams by the C10 streaming part.",
     },
@@ -327,7 +342,8 @@ CHECKS = {
                 "SmallVec<[u8;4]> (inline->heap spills), plus seeded random runs (lengths up to ~100, From<Container> "
                 "starts); every recorded call (return value, full view, len/is_empty/front/back, hook H1's "
                 "consumed/container lengths, panics) is validated by TLC against the A-spec. SortedDeque runs (C16) "
-                "contribute the waste bound of the inner deque.",
+                "contribute the waste bound of the inner deque. DequeInd.tla carries the waste bound as an inductive invariant discharged "
+                "by Apalache for unbounded sizes (negative control: pop_back without maybe_slide, finding F2, breaks it).",
         "design_ref": "DESIGN.md section 6, C15",
         "note": "Bounded: exhaustive only within the MC constants; beyond them seeded random traces. Trusts hook H1 "
                 "(verif_rep returns the two private fields), TLC, the harness's recording (no oracle in the harness). "
